@@ -673,10 +673,11 @@ class Light(SystemWideDevice, DevicePositionMixin):
     def _get_priority_from_key(self, key):
         if not self.stack:
             return 0
-        if self.stack[0].key == key:
+        # (entries which are only fading out after their key has been removed do not count)
+        if self.stack[0].key == key and self.stack[0].dest_color is not None:
             return self.stack[0].priority
         try:
-            return [x for x in self.stack if x.key == key][0].priority
+            return [x for x in self.stack if x.key == key and x.dest_color is not None][0].priority
         except IndexError:
             return 0
 
